@@ -50,11 +50,19 @@ func (i c16Info) tuple() string {
 // dropped: only "." and ".." are), then plain ones. No '/' and no empty name (not legal entries).
 var c16NamePool = []string{"a b", "...", ".a", " lead", "trail ", "\xc3\xbc", "\xe6\x97\xa5\xe6\x9c\xac", "\xff\xfe", "x\xffy", "..a", "a.", "-", "~", "\\", "a\tb", "\xe5\x90\x8d\x80", ". ", ".. "}
 
+// c16NameLen > 0 pads every plain name to that length (long names make one batch marshal to far
+// more than 32 KiB).
+var c16NameLen int
+
 func c16Name(i int) string {
-	if i < len(c16NamePool) {
+	if i < len(c16NamePool) && c16NameLen == 0 {
 		return c16NamePool[i]
 	}
-	return fmt.Sprintf("f%04d", i)
+	n := fmt.Sprintf("f%04d", i)
+	if c16NameLen > len(n) {
+		n += strings.Repeat("n", c16NameLen-len(n))
+	}
+	return n
 }
 
 func c16Entry(i int) c16Info {
@@ -485,6 +493,26 @@ func init() {
 				}
 			}
 		}
+		// long names: one batch marshals to far more than the 32 KiB default payload
+		for _, nl := range []int{150, 240} {
+			for _, n := range []int{99, 100, 101, 250} {
+				for _, behave := range c16Behaviours {
+					i++
+					if !c.Mine(i) {
+						continue
+					}
+					id := fmt.Sprintf("B=100 n=%d %s names of %d bytes", n, behave, nl)
+					res.Case(id)
+					c16NameLen = nl
+					key, msg, outcome := c16RunRS(100, n, behave, "none")
+					c16NameLen = 0
+					res.Outcome(outcome)
+					if key != "" {
+						res.Violate("C16", key+":longnames:"+behave, id+": "+msg, map[string]any{"server": "request", "batch": 100, "entries": n, "behaviour": behave, "namelen": nl}, nil)
+					}
+				}
+			}
+		}
 		res.Sample(map[string]any{"batches": c16Batches(c.Tier), "sizes": "0..2B+2", "behaviours": c16Behaviours, "dots": c16Dots})
 		res.Bound = fmt.Sprintf("MaxFilelist in %v x every size 0..2B+2 x %d lister behaviours x %d placements of '.'/'..'", c16Batches(c.Tier), len(c16Behaviours), len(c16Dots))
 		return res
@@ -514,6 +542,25 @@ func init() {
 				res.Outcome(outcome)
 				if key != "" {
 					res.Violate("C16", key, id+": "+msg, map[string]any{"server": "os", "entries": n, "allocator": alloc}, nil)
+				}
+			}
+		}
+		for _, nl := range []int{120, 250} {
+			for _, n := range []int{127, 128, 129, 258, 300} {
+				for _, alloc := range []bool{false, true} {
+					i++
+					if !c.Mine(i) {
+						continue
+					}
+					id := fmt.Sprintf("os n=%d alloc=%v names of %d bytes", n, alloc, nl)
+					res.Case(id)
+					c16NameLen = nl
+					key, msg, outcome := c16RunOS(n, alloc, false)
+					c16NameLen = 0
+					res.Outcome(outcome)
+					if key != "" {
+						res.Violate("C16", key+":longnames", id+": "+msg, map[string]any{"server": "os", "entries": n, "allocator": alloc, "namelen": nl}, nil)
+					}
 				}
 			}
 		}
